@@ -11,6 +11,8 @@ import math
 import warnings
 from fractions import Fraction as F
 
+import numpy as np
+
 from . import common as C
 
 ANCHORS = [("shangrla/core/Audit.py",
@@ -23,10 +25,10 @@ IMPORTS = "From SV Require Import Run_Assorter.\nOpen Scope Z_scope."
 
 # names -> model identifiers.  A falsy name ("") is 0: Contest.tally skips it.
 CAND = {"": 0, "ALL_OTHERS": -1, "NO_CANDIDATE": -2, "A": 1, "B": 2, "C": 3, "D": 4, "E": 5,
-        "W1": 101, "Write-in": 102, "WRITE_IN": 103, "ALL": 104, "a": 105, "A ": 106}
+        "W1": 101, "Write-in": 102, "WRITE_IN": 103, "ALL": 104, "a": 105, "A ": 106, 7: 107, 42: 142}
 CONS = {"c1": 1, "c2": 2, "c3": 3, "other": 9, "A": 11, "": 0}
 LISTED = ["A", "B", "C", "D", "E"]
-WRITEINS = ["W1", "Write-in", "WRITE_IN", "ALL", "a", "A "]
+WRITEINS = ["W1", "Write-in", "WRITE_IN", "ALL", "a", "A ", 7, 42]   # unlisted names on ballots, str and int
 TRUTHY = [True, True, 1, 5, "marked", 1.0, -1, "0", 2, "x"]
 FALSY = [False, 0, "", None, 0.0]
 SHARES = [F(1, 2), F(2, 3), F(3, 5), F(3, 4), F(1, 3), F(9, 10), F(1, 4), F(5, 8), F(11, 20), F(2, 5)]
@@ -43,12 +45,12 @@ def AU():
 def mark_lit(v):
     if v is None:
         return "MNone"
-    if isinstance(v, bool):
-        return f"(MBool {C.blit(v)})"
-    if isinstance(v, int):
-        return f"(MInt {C.zlit(v)})"
-    if isinstance(v, float):
-        return f"(MFloat {C.qlit(v)})"
+    if isinstance(v, (bool, np.bool_)):
+        return f"(MBool {C.blit(bool(v))})"
+    if isinstance(v, (int, np.integer)):
+        return f"(MInt {C.zlit(int(v))})"
+    if isinstance(v, (float, np.floating)):
+        return f"(MFloat {C.qlit(float(v))})"
     if isinstance(v, str):
         assert all(ch.isalnum() or ch == " " for ch in v)
         return f'(MStr "{v}"%string)'
@@ -121,15 +123,44 @@ def jcase(c):
 
 
 # ---------------------------------------------------------------- generation
+# The same selection in other representations.  A mark style is chosen per world:
+#   ("mark", T, Fs)   every mark drawn independently from the lists (mixed within a ballot)
+#   ("ballot", T, Fs) one truthy and one falsy encoding per ballot (homogeneous ballots, mixed across ballots)
+#   ("world", t, f)   one encoding for the whole world
+# ABSENT as the falsy encoding means the key is left out.
+ABSENT = object()
+TRUTHY_ALL = TRUTHY + [np.int64(1), np.bool_(True), "1", "X", np.float64(1.0), np.int32(3)]
+FALSY_ALL = FALSY + [np.int64(0), np.bool_(False), np.float64(0.0), ABSENT]
+TRUTHY_ONE = [True, 1, 1.0, np.int64(1), np.bool_(True), "1", "X"]
+FALSY_ONE = [False, 0, 0.0, "", None, ABSENT]
+MARK_STYLE = [("mark", TRUTHY, FALSY)]
+
+
+def set_mark_style(rng):
+    k = rng.choice(["legacy", "mark", "mark", "ballot", "ballot", "world", "world"])
+    if k == "legacy":
+        MARK_STYLE[0] = ("mark", TRUTHY, FALSY)
+    elif k == "world":
+        MARK_STYLE[0] = ("world", [rng.choice(TRUTHY_ONE)], [rng.choice(FALSY_ONE)])
+    else:
+        MARK_STYLE[0] = (k, TRUTHY_ALL if rng.random() < 0.7 else TRUTHY_ONE, FALSY_ALL if rng.random() < 0.7 else FALSY_ONE)
+    return k
+
+
 def encode(rng, cands, sel, p_explicit, extra):
     """votes dict for one contest on one card: truthy encodings for `sel`, explicit falsy entries for some
     other listed candidates, `extra` (name -> mark) added verbatim; key order shuffled."""
+    kind, T, Fs = MARK_STYLE[0]
+    if kind == "ballot":
+        T, Fs = [rng.choice(T)], [rng.choice(Fs)]
     d = {}
     for x in cands:
         if x in sel:
-            d[x] = rng.choice(TRUTHY)
+            d[x] = rng.choice(T)
         elif rng.random() < p_explicit:
-            d[x] = rng.choice(FALSY)
+            v = rng.choice(Fs)
+            if v is not ABSENT:
+                d[x] = v
     d.update(extra)
     keys = list(d)
     rng.shuffle(keys)
@@ -210,6 +241,7 @@ def gen_selections(rng, spec, n, clean):
 
 def gen_world(rng, n=None):
     """1-3 contests, a card list containing subsets of them."""
+    mstyle = set_mark_style(rng)
     ncon = rng.choice([1, 1, 1, 2, 3])
     shared = ncon > 1 and rng.random() < 0.5       # contests share the candidate / winner / loser list objects
     specs = []
@@ -264,7 +296,7 @@ def gen_world(rng, n=None):
         if s["scf"] == "SUPERMAJORITY" and rng.random() < 0.6:
             s["winners"] = [s["cands"][0]]          # the candidate the threshold / unanimous profiles are built around
     return {"specs": specs, "cards": cards, "shared": shared, "twice": rng.random() < 0.3,
-            "via_all": rng.random() < 0.3, "modes": modes, "clean": clean}
+            "via_all": rng.random() < 0.3, "modes": modes, "clean": clean, "marks": mstyle}
 
 
 FLOAT_SHARES = [0.55, 0.6, 1 / 3, 0.599999, 0.600001, 2 / 3, 0.45, 0.5000001, 0.3333, 0.7, 0.51]
@@ -283,6 +315,7 @@ def gen_sized_world(rng, n, scf, lead=None, tail=0, float_share=True):
     plurality: winner's lead over the runner-up is `lead` votes (any sign; None = random, a few percent);
     super-majority: the winner has floor(f * valid) + d valid votes, d in {1, 0, 2, -1}.
     The last `tail` cards favour the loser, so the vote split changes along the list."""
+    mstyle = set_mark_style(rng)
     cands = rng.sample(LISTED, rng.randint(2, 4))
     win, los = cands[0], cands[1]
     f = None
@@ -339,11 +372,12 @@ def gen_sized_world(rng, n, scf, lead=None, tail=0, float_share=True):
     rng.shuffle(head)
     cards = head + [pal[los][0]] * tail
     return {"specs": [spec], "cards": cards, "shared": False, "twice": False, "via_all": rng.random() < 0.3,
-            "modes": ["sized"], "clean": True, "lead": lead}
+            "modes": ["sized"], "clean": True, "lead": lead, "marks": mstyle}
 
 
 def exhaustive_worlds(rng):
     """all multisets of <= 4 cards over the 9 card types (contest absent, or any subset of 3 candidates marked)"""
+    MARK_STYLE[0] = ("mark", TRUTHY_ALL, FALSY_ALL)
     cands = ["A", "B", "C"]
     types = [None] + [set(s) for r in range(4) for s in itertools.combinations(cands, r)]
     worlds = []
@@ -361,8 +395,27 @@ def exhaustive_worlds(rng):
 
 
 # ---------------------------------------------------------------- implementation side
-def make_cvrs(cards):
+NUMS = {"int": int, "np.int64": np.int64, "float": float, "np.float64": np.float64}
+
+
+def gen_repr(rng):
+    """How the same world is handed to the library: collection types, numeric types, positional or keyword calls."""
+    if rng.random() < 0.25:
+        return {"cand": "list", "win": "list", "los": "list", "cards": "int", "nw": "int", "share": "float",
+                "positional": False, "cvrs": "list"}
+    return {"cand": rng.choice(["list", "tuple", "set"]), "win": rng.choice(["list", "tuple", "set"]),
+            "los": rng.choice(["list", "tuple", "set"]), "cards": rng.choice(list(NUMS)), "nw": rng.choice(list(NUMS)),
+            "share": rng.choice(["float", "np.float64"]), "positional": rng.random() < 0.5,
+            "cvrs": rng.choice(["list", "tuple"])}
+
+
+COLL = {"list": list, "tuple": tuple, "set": set}
+
+
+def make_cvrs(cards, positional=False):
     A = AU()
+    if positional:
+        return [A.CVR(str(i), None, c["votes"], c["phantom"]) for i, c in enumerate(cards)]
     return [A.CVR(id=str(i), votes=c["votes"], phantom=c["phantom"]) for i, c in enumerate(cards)]
 
 
@@ -370,11 +423,14 @@ def fl(v):
     return None if v is None else float(v)
 
 
-def observe(asn, kind, cvrs, polling, style):
-    """everything C02 observes of one assertion; None where the call raised"""
-    A = AU()
-    o = {"kind": kind, "vals": [], "ub": float(asn.assorter.upper_bound), "polling": polling, "style": style,
-         "mean_s": None, "mean_a": None, "margin": None, "u": None, "exc": []}
+def new_obs(asn, kind, polling, style):
+    return {"kind": kind, "vals": [], "ub": float(asn.assorter.upper_bound), "polling": polling, "style": style,
+            "mean_s": None, "mean_a": None, "margin": None, "u": None, "exc": []}
+
+
+def observe_eval(asn, o, cvrs, positional=False):
+    """Assorter.assort on every card, Assorter.mean with and without the style filter; None where the call raised"""
+    o["vals"], o["mean_s"], o["mean_a"] = [], None, None
     for c in cvrs:
         try:
             o["vals"].append(float(asn.assorter.assort(c)))
@@ -383,32 +439,49 @@ def observe(asn, kind, cvrs, polling, style):
             o["exc"].append(f"assort: {type(e).__name__}")
     for key, us in (("mean_s", True), ("mean_a", False)):
         try:
-            o[key] = float(asn.assorter.mean(cvrs, use_style=us))
+            o[key] = float(asn.assorter.mean(cvrs, us) if positional else asn.assorter.mean(cvr_list=cvrs, use_style=us))
         except Exception as e:  # noqa
             o["exc"].append(f"mean: {type(e).__name__}")
+
+
+def observe_set(asn, o, cvrs, positional=False):
+    """Assertion.set_margin_from_cvrs: the stored margin and test.u"""
+    A = AU()
+    o["margin"], o["u"] = None, None
     try:
-        audit = A.Audit(strata={"s": A.Stratum(use_style=style)})
-        asn.set_margin_from_cvrs(audit, cvrs)
+        audit = A.Audit(strata={"s": A.Stratum(use_style=o["style"])})
+        asn.set_margin_from_cvrs(audit, cvrs) if positional else asn.set_margin_from_cvrs(audit=audit, cvr_list=cvrs)
         o["margin"], o["u"] = float(asn.margin), float(asn.test.u)
     except Exception as e:  # noqa
         o["exc"].append(f"set_margin_from_cvrs: {type(e).__name__}")
+
+
+def observe(asn, kind, cvrs, polling, style):
+    """everything C02 observes of one assertion"""
+    o = new_obs(asn, kind, polling, style)
+    observe_eval(asn, o, cvrs)
+    observe_set(asn, o, cvrs)
     return o
 
 
-def build_assertions(con, spec, W, L, via_all):
+def build_assertions(con, spec, W, L, via_all, positional=False):
     """the library builds the assorters; returns list of (kind, Assertion)"""
     A = AU()
     if via_all and spec["scf"] != "APPROVAL":
         A.Assertion.make_all_assertions({con.id: con})
         d = con.assertions
     elif spec["scf"] == "SUPERMAJORITY":
+        w0 = sorted(W)[0] if isinstance(W, set) else W[0]
         if spec["_rng"].random() < 0.3:     # the share is the contest's: the keyword (default 1/2) may be left out
-            d = A.Assertion.make_supermajority_assertion(contest=con, winner=W[0], loser=L)
+            d = A.Assertion.make_supermajority_assertion(contest=con, winner=w0, loser=L)
+        elif positional:
+            d = A.Assertion.make_supermajority_assertion(con, con.share_to_win, w0, L)
         else:
-            d = A.Assertion.make_supermajority_assertion(contest=con, share_to_win=con.share_to_win, winner=W[0], loser=L)
+            d = A.Assertion.make_supermajority_assertion(contest=con, share_to_win=con.share_to_win, winner=w0, loser=L)
         con.assertions = d
     else:
-        d = A.Assertion.make_plurality_assertions(contest=con, winner=W, loser=L)
+        d = A.Assertion.make_plurality_assertions(con, W, L) if positional else \
+            A.Assertion.make_plurality_assertions(contest=con, winner=W, loser=L)
         con.assertions = d
     out = []
     for key, asn in d.items():
@@ -425,7 +498,7 @@ def exc_kind(e):
     return n if n in ("KeyError", "ZeroDivisionError", "TypeError", "NotImplementedError") else "TypeError"
 
 
-def run_margin(asn, con, arg, tag):
+def run_margin(asn, con, arg, tag, positional=False):
     """one call of find_margin_from_tally; returns the m-case"""
     ct = con.tally
     ctally = None if ct is None else (list(ct.items()), hasattr(ct, "default_factory"))
@@ -433,7 +506,12 @@ def run_margin(asn, con, arg, tag):
     try:
         with warnings.catch_warnings():
             warnings.simplefilter("ignore")
-            asn.find_margin_from_tally(arg) if arg is not None else asn.find_margin_from_tally()
+            if arg is None:
+                asn.find_margin_from_tally()
+            elif positional:
+                asn.find_margin_from_tally(arg)
+            else:
+                asn.find_margin_from_tally(tally=arg)
         r = ("val", float(asn.margin))
     except Exception as e:  # noqa
         r = ("err", exc_kind(e))
@@ -443,10 +521,32 @@ def run_margin(asn, con, arg, tag):
             "candidates": list(con.candidates), "res": r, "tag": tag}
 
 
-def run_world(w, rng):
-    """Run the real code on one world. Returns (a_cases, t_cases, m_cases, facts for the oracle)."""
+def prelude_cards(rng, w):
+    """another card list for the same contests: a resample of the world's cards with some selections changed"""
+    n = rng.randint(1, max(2, min(40, 2 * len(w["cards"]))))
+    out = []
+    for _ in range(n):
+        c = w["cards"][rng.randrange(len(w["cards"]))]
+        if rng.random() < 0.5:
+            votes = {}
+            for con, vs in c["votes"].items():
+                spec = next((s for s in w["specs"] if s["id"] == con), None)
+                votes[con] = encode(rng, spec["cands"], set(rng.sample(spec["cands"], rng.randint(0, 2))), 0.3, {}) \
+                    if spec else vs
+            c = {"votes": votes, "phantom": c["phantom"]}
+        out.append(c)
+    return out
+
+
+def world_steps(w, rng, cvrs=None):
+    """Run the real code on one world, as a generator that yields between phases so that two worlds can be
+    evaluated alternately.  Its return value is (a_cases, t_cases, m_cases, facts for the oracle)."""
     A = AU()
-    cvrs = make_cvrs(w["cards"])
+    rp = w.setdefault("repr", gen_repr(rng))
+    pos = rp["positional"]
+    if cvrs is None:
+        cvrs = make_cvrs(w["cards"], pos)
+    cvrs = COLL[rp["cvrs"]](cvrs)
     specs = w["specs"]
     cons, lists = [], {}
     for s in specs:
@@ -454,116 +554,198 @@ def run_world(w, rng):
         if w["shared"] and lists:
             cand_obj, W, L = lists["c"], lists["W"], lists["L"]
         else:
-            cand_obj = list(s["cands"])
-            W = list(s["winners"])
-            L = [x for x in s["cands"] if x not in W]
+            sm = s["scf"] == "SUPERMAJORITY"
+            cand_obj = COLL[rp["cand"]](s["cands"])
+            # make_supermajority_assertion copies and appends to `loser` (a list) and make_all_assertions indexes
+            # `winner`; elsewhere any collection is legal
+            W = COLL["list" if (sm and rp["win"] == "set") else rp["win"]](s["winners"])
+            L = [x for x in s["cands"] if x not in s["winners"]]
             rng.shuffle(L)
+            L = COLL["list" if sm else rp["los"]](L)
             lists = {"c": cand_obj, "W": W, "L": L}
-        con = A.Contest(id=s["id"], name=s["id"], cards=len(cvrs), choice_function=s["scf"], n_winners=s["k"],
-                        share_to_win=float(s["f"]) if s["f"] is not None else None, candidates=cand_obj, winner=W,
-                        audit_type=A.Audit.AUDIT_TYPE.POLLING if s["polling"] else A.Audit.AUDIT_TYPE.CARD_COMPARISON)
+        f = NUMS[rp["share"]](float(s["f"])) if s["f"] is not None else None
+        at = A.Audit.AUDIT_TYPE.POLLING if s["polling"] else A.Audit.AUDIT_TYPE.CARD_COMPARISON
+        if pos:
+            con = A.Contest(s["id"], s["id"], 0.05, NUMS[rp["cards"]](len(cvrs)), s["scf"], NUMS[rp["nw"]](s["k"]), f,
+                            cand_obj, W, None, at)
+        else:
+            con = A.Contest(id=s["id"], name=s["id"], cards=NUMS[rp["cards"]](len(cvrs)), choice_function=s["scf"],
+                            n_winners=NUMS[rp["nw"]](s["k"]), share_to_win=f, candidates=cand_obj, winner=W, audit_type=at)
         cons.append((s, con, W, L))
     built = []
     for s, con, W, L in cons:
-        built.append([(s, con, build_assertions(con, s, W, L, w["via_all"]))])
+        built.append([(s, con, build_assertions(con, s, W, L, w["via_all"], pos))])
     if w["twice"]:      # rebuild everything from the same Contest and list objects; the first generation is still used
         for i, (s, con, W, L) in enumerate(cons):
-            built[i].append((s, con, build_assertions(con, s, W, L, w["via_all"] and rng.random() < 0.5)))
-    a_cases, facts = [], []
-    with warnings.catch_warnings():
-        warnings.simplefilter("ignore")
-        for gens in built:
-            for gi, (s, con, asns) in enumerate(gens):
-                obs = [observe(asn, kind, cvrs, s["polling"], s["style"]) for kind, asn in asns]
-                a_cases.append({"con": s["id"], "cards": w["cards"], "obs": obs, "gen": gi,
-                                "spec": {k: v for k, v in s.items() if k != "_rng"}})
-        # tallies: all contests in one call; then margins from the tally
-        con_dict = {con.id: con for _, con, _, _ in cons}
-        t_cases, m_cases = [], []
-        enforce = specs[0]["enforce"]
-        try:
-            if rng.random() < 0.3:      # an earlier tally of other cards must leave no trace
-                A.Contest.tally(con_dict, cvrs[: max(1, len(cvrs) // 2)], enforce_rules=not enforce)
-            A.Contest.tally(con_dict, cvrs, enforce_rules=enforce)
-        except Exception:  # noqa  (a tally that raised shows up as a tally differing from the model's)
-            pass
-        try:
-            tab = [(k, list(v.items())) for k, v in A.CVR.tabulate_votes(cvrs).items()]
-        except Exception:  # noqa
-            tab = [("other", [("A", -1)])]             # (never equal to the model's value)
-        for gens in built:
-            s, con, asns = gens[-1]
-            tally_items = list(con.tally.items()) if con.tally is not None else []
-            t_cases.append({"con": s["id"], "enforce": enforce, "nw": s["k"], "cards": w["cards"],
-                            "tally": tally_items, "tab": tab})
-            tab = None                                 # tabulate_votes compared once per world
-            n_f = sum(1 for c in w["cards"] if s["id"] in c["votes"]) if s["style"] else len(cvrs)
-            con.cards = n_f
-            snapshot = con.tally.copy() if con.tally is not None else None
-            # Contest.find_margins_from_tally: every assertion, contest's own tally
-            for kind, asn in asns:
-                asn.margin = None
-            ctally0 = (list(con.tally.items()), True) if con.tally is not None else None
+            built[i].append((s, con, build_assertions(con, s, W, L, w["via_all"] and rng.random() < 0.5, pos)))
+    yield "built"
+    con_dict = {con.id: con for _, con, _, _ in cons}
+    enforce = specs[0]["enforce"]
+    out = {}
+
+    def evaluate(cvrs, cards, record):
+        """every observation of C02 on one CVR list with the objects built above"""
+        a_cases, t_cases, m_cases, facts = [], [], [], []
+        with warnings.catch_warnings():
+            warnings.simplefilter("ignore")
+            slots = []
+            for gens in built:
+                for gi, (s, con, asns) in enumerate(gens):
+                    obs = [new_obs(asn, kind, s["polling"], s["style"]) for kind, asn in asns]
+                    a_cases.append({"con": s["id"], "cards": cards, "obs": obs, "gen": gi,
+                                    "spec": {k: v for k, v in s.items() if k != "_rng"}})
+                    slots += [(asn, o) for (kind, asn), o in zip(asns, obs)]
+            if w.get("setters_first"):      # all setters before any evaluation, both in shuffled order
+                order = list(slots)
+                rng.shuffle(order)
+                for asn, o in order:
+                    observe_set(asn, o, cvrs, pos)
+                    yield "set"
+                rng.shuffle(order)
+                for asn, o in order:
+                    observe_eval(asn, o, cvrs, pos)
+                    yield "eval"
+            else:
+                for asn, o in slots:
+                    observe_eval(asn, o, cvrs, pos)
+                    observe_set(asn, o, cvrs, pos)
+                    yield "obs"
+            # tallies: all contests in one call; then margins from the tally
             try:
-                con.find_margins_from_tally()
-                raised = None
-            except Exception as e:  # noqa
-                raised = exc_kind(e)
-            f = con.share_to_win
-            for kind, asn in asns:
-                mc = {"arg": None, "ctally": ctally0, "scf": con.choice_function, "w": asn.winner, "l": asn.loser,
-                      "cards": int(con.cards), "f": F(*float(f).as_integer_ratio()) if f is not None else F(1, 2),
-                      "candidates": list(con.candidates), "tag": "find_margins_from_tally"}
-                if asn.margin is not None:
-                    mc["res"] = ("val", float(asn.margin))
-                    m_cases.append(mc)
-                else:       # the loop stopped here; later assertions were never reached
-                    mc["res"] = ("err", raised or "TypeError")
-                    m_cases.append(mc)
-                    break
-            facts.append({"spec": {k: v for k, v in s.items() if k != "_rng"}, "enforce": enforce, "n_f": n_f,
-                          "margins": [(kind, fl(asn.margin)) for kind, asn in asns] if raised is None else []})
-            # explicit-argument variants on one assertion
-            if asns:
-                kind, asn = asns[rng.randrange(len(asns))]
-                con.tally = snapshot.copy() if snapshot is not None else None
-                v = rng.choice(["plain", "empty", "subset", "cards0", "notally", "foreign", "scf"])
-                if v == "plain":
-                    m_cases.append(run_margin(asn, con, dict(snapshot or {}), v))
-                elif v == "empty":
-                    m_cases.append(run_margin(asn, con, {}, v))
-                elif v == "subset":
-                    d = {k: x for k, x in (snapshot or {}).items() if rng.random() < 0.6}
-                    m_cases.append(run_margin(asn, con, d, v))
-                elif v == "cards0":
-                    con.cards = 0
-                    mc0 = run_margin(asn, con, None, v)
-                    con.cards = n_f
-                    # (super-majority, cards = 0: the result is inf * (p/f - 1); when the winner sits at the
-                    #  threshold the sign of the second factor is a rounding matter -- not comparable)
-                    tw = dict(snapshot or {}).get(asn.winner, 0)
-                    vv = sum(dict(snapshot or {}).get(x, 0) for x in s["cands"])
-                    if not (s["scf"] == "SUPERMAJORITY" and vv and abs(F(tw, vv) / mc0["f"] - 1) < F(1, 10 ** 9)):
-                        m_cases.append(mc0)
-                elif v == "notally":
-                    con.tally = None
-                    m_cases.append(run_margin(asn, con, None, v))
-                elif v == "scf":    # the contest's social choice function is not the one the assertion was made for
-                    keep = con.choice_function
-                    con.choice_function = rng.choice([x for x in ("PLURALITY", "APPROVAL", "SUPERMAJORITY", "IRV") if x != keep])
-                    if not (con.choice_function == "SUPERMAJORITY" and con.share_to_win is None and kind[0] == "sm"):
+                if rng.random() < 0.3:      # an earlier tally of other cards must leave no trace
+                    A.Contest.tally(con_dict, cvrs[: max(1, len(cvrs) // 2)], enforce_rules=not enforce)
+                    yield "tally0"
+                if pos:
+                    A.Contest.tally(con_dict, cvrs, enforce)
+                else:
+                    A.Contest.tally(con_dict=con_dict, cvr_list=cvrs, enforce_rules=enforce)
+            except Exception:  # noqa  (a tally that raised shows up as a tally differing from the model's)
+                pass
+            try:
+                tab = [(k, list(v.items())) for k, v in A.CVR.tabulate_votes(cvrs).items()]
+            except Exception:  # noqa
+                tab = [("other", [("A", -1)])]             # (never equal to the model's value)
+            yield "tallied"
+            for gens in built:
+                s, con, asns = gens[-1]
+                tally_items = list(con.tally.items()) if con.tally is not None else []
+                t_cases.append({"con": s["id"], "enforce": enforce, "nw": s["k"], "cards": cards,
+                                "tally": tally_items, "tab": tab})
+                tab = None                                 # tabulate_votes compared once per world
+                n_f = sum(1 for c in cards if s["id"] in c["votes"]) if s["style"] else len(cvrs)
+                con.cards = NUMS[rp["cards"]](n_f) if n_f else 0   # (x / numpy 0 is inf, not ZeroDivisionError)
+                snapshot = con.tally.copy() if con.tally is not None else None
+                # Contest.find_margins_from_tally: every assertion, contest's own tally
+                for kind, asn in asns:
+                    asn.margin = None
+                ctally0 = (list(con.tally.items()), True) if con.tally is not None else None
+                try:
+                    con.find_margins_from_tally()
+                    raised = None
+                except Exception as e:  # noqa
+                    raised = exc_kind(e)
+                f = con.share_to_win
+                for kind, asn in asns:
+                    mc = {"arg": None, "ctally": ctally0, "scf": con.choice_function, "w": asn.winner, "l": asn.loser,
+                          "cards": int(con.cards), "f": F(*float(f).as_integer_ratio()) if f is not None else F(1, 2),
+                          "candidates": list(con.candidates), "tag": "find_margins_from_tally"}
+                    if asn.margin is not None:
+                        mc["res"] = ("val", float(asn.margin))
+                        m_cases.append(mc)
+                    else:       # the loop stopped here; later assertions were never reached
+                        mc["res"] = ("err", raised or "TypeError")
+                        m_cases.append(mc)
+                        break
+                facts.append({"spec": {k: v for k, v in s.items() if k != "_rng"}, "enforce": enforce, "n_f": n_f,
+                              "margins": [(kind, fl(asn.margin)) for kind, asn in asns] if raised is None else []})
+                yield "margins"
+                # explicit-argument variants on one assertion
+                if asns and record:
+                    kind, asn = asns[rng.randrange(len(asns))]
+                    con.tally = snapshot.copy() if snapshot is not None else None
+                    v = rng.choice(["plain", "empty", "subset", "cards0", "notally", "foreign", "scf"])
+                    if v == "plain":
+                        m_cases.append(run_margin(asn, con, dict(snapshot or {}), v, pos))
+                    elif v == "empty":
+                        m_cases.append(run_margin(asn, con, {}, v, pos))
+                    elif v == "subset":
+                        d = {k: x for k, x in (snapshot or {}).items() if rng.random() < 0.6}
+                        m_cases.append(run_margin(asn, con, d, v, pos))
+                    elif v == "cards0":
+                        con.cards = 0
+                        mc0 = run_margin(asn, con, None, v)
+                        con.cards = NUMS[rp["cards"]](n_f)
+                        # (super-majority, cards = 0: the result is inf * (p/f - 1); when the winner sits at the
+                        #  threshold the sign of the second factor is a rounding matter -- not comparable)
+                        tw = dict(snapshot or {}).get(asn.winner, 0)
+                        vv = sum(dict(snapshot or {}).get(x, 0) for x in s["cands"])
+                        if not (s["scf"] == "SUPERMAJORITY" and vv and abs(F(tw, vv) / mc0["f"] - 1) < F(1, 10 ** 9)):
+                            m_cases.append(mc0)
+                    elif v == "notally":
+                        con.tally = None
                         m_cases.append(run_margin(asn, con, None, v))
-                    con.choice_function = keep
-                else:   # a tally with names that are not listed candidates, plain dict with every listed name
-                    d = {x: rng.randint(0, 9) for x in s["cands"]}
-                    d[rng.choice(WRITEINS)] = rng.randint(1, 9)
-                    keys = list(d)
-                    rng.shuffle(keys)
-                    m_cases.append(run_margin(asn, con, {k: d[k] for k in keys}, v))
-                con.tally = snapshot
+                    elif v == "scf":    # the contest's social choice function is not the one the assertion was made for
+                        keep = con.choice_function
+                        con.choice_function = rng.choice([x for x in ("PLURALITY", "APPROVAL", "SUPERMAJORITY", "IRV") if x != keep])
+                        if not (con.choice_function == "SUPERMAJORITY" and con.share_to_win is None and kind[0] == "sm"):
+                            m_cases.append(run_margin(asn, con, None, v))
+                        con.choice_function = keep
+                    else:   # a tally with names that are not listed candidates, plain dict with every listed name
+                        d = {x: rng.randint(0, 9) for x in s["cands"]}
+                        d[rng.choice(WRITEINS)] = rng.randint(1, 9)
+                        keys = list(d)
+                        rng.shuffle(keys)
+                        m_cases.append(run_margin(asn, con, {k: d[k] for k in keys}, v, pos))
+                    con.tally = snapshot
+        out["r"] = (a_cases, t_cases, m_cases, facts)
+
+    if w.get("prelude"):        # the same objects first serve another CVR list; nothing of it may remain
+        pc = prelude_cards(rng, w)
+        yield from evaluate(COLL[rp["cvrs"]](make_cvrs(pc, pos)), pc, False)
+    yield from evaluate(cvrs, w["cards"], True)
     for s in specs:
         s.pop("_rng", None)
-    return a_cases, t_cases, m_cases, facts
+    return out["r"]
+
+
+def drive(gens):
+    """advance the generators alternately until all are finished; returns their return values in order"""
+    results = [None] * len(gens)
+    live = list(range(len(gens)))
+    while live:
+        for i in list(live):
+            try:
+                next(gens[i])
+            except StopIteration as e:
+                results[i] = e.value
+                live.remove(i)
+    return results
+
+
+def run_world(w, rng, cvrs=None):
+    return drive([world_steps(w, rng, cvrs)])[0]
+
+
+def variant_world(rng, w):
+    """the same cards read by other Contest objects: other reported winners, modes and representation"""
+    specs = []
+    for s in w["specs"]:
+        t = dict(s)
+        t["winners"] = rng.sample(s["cands"], len(s["winners"]))
+        t["polling"], t["style"], t["enforce"] = rng.random() < 0.5, rng.random() < 0.5, rng.random() < 0.5
+        specs.append(t)
+    if w["shared"]:
+        for t in specs[1:]:
+            t["winners"] = specs[0]["winners"]
+    return {"specs": specs, "cards": w["cards"], "shared": w["shared"], "twice": rng.random() < 0.3,
+            "via_all": rng.random() < 0.3, "modes": ["variant"], "clean": w["clean"], "marks": w.get("marks"),
+            "setters_first": rng.random() < 0.4, "prelude": rng.random() < 0.3}
+
+
+def run_pair(w1, w2, rng, share_cvrs):
+    """two worlds built completely, then evaluated alternately; optionally on the very same CVR objects"""
+    cv = make_cvrs(w1["cards"]) if share_cvrs else None
+    return drive([world_steps(w1, rng, cv), world_steps(w2, rng, cv)])
 
 
 # ---------------------------------------------------------------- oracle (implementation only)
@@ -728,11 +910,11 @@ def reader_cases(rng, worlds, n):
         card, s = pool[rng.randrange(len(pool))]
         con = rng.choice([s["id"], s["id"], s["id"], "other", "c3"])
         k = rng.randint(0, 5)
-        cands = [rng.choice(LISTED + WRITEINS[:2] + [""]) for _ in range(k)] if rng.random() < 0.5 else list(s["cands"])
+        cands = [rng.choice(LISTED + WRITEINS + [""]) for _ in range(k)] if rng.random() < 0.5 else list(s["cands"])
         cvr = A.CVR(id="x", votes=card["votes"], phantom=card["phantom"])
         got = [cvr.get_vote_for(con, x) for x in cands]
         try:
-            one = bool(cvr.has_one_vote(con, cands))
+            one = bool(cvr.has_one_vote(con, rng.choice([list, tuple])(cands)))
         except Exception:  # noqa
             one = None
         out.append({"card": card, "con": con, "cands": cands, "votes": [int(A.CVR.as_vote(g)) for g in got],
@@ -806,7 +988,7 @@ def tally_and_margins(A, con, spec, asns, cvrs, cards, enforce, t_out, m_out):
 # ---------------------------------------------------------------- entry point
 def digest(ac):
     return repr((ac["spec"]["scf"], ac["spec"]["cands"], ac["spec"]["winners"], str(ac["spec"]["f"]),
-                 [sorted((k, sorted((x, repr(m)) for x, m in v.items())) for k, v in c["votes"].items()) for c in ac["cards"]]))
+                 [sorted((k, sorted((repr(x), repr(m)) for x, m in v.items())) for k, v in c["votes"].items()) for c in ac["cards"]]))
 
 
 def run(ctx, res):
@@ -822,11 +1004,11 @@ def run(ctx, res):
         stats[k] = stats.get(k, 0) + d
 
     worlds = []
-    # ---- random and boundary worlds
-    for _ in range(n_worlds):
-        w = gen_world(rng)
+
+    def absorb(w, result):
+        nonlocal a_cases, t_cases, m_cases
+        ac, tc, mc, facts = result
         worlds.append(w)
-        ac, tc, mc, facts = run_world(w, rng)
         a_cases += ac
         t_cases += tc
         m_cases += mc
@@ -847,11 +1029,42 @@ def run(ctx, res):
             hit("world:assertions built twice")
         if w["via_all"]:
             hit("world:make_all_assertions")
+        if w.get("setters_first"):
+            hit("world:all setters before any evaluation, shuffled")
+        if w.get("prelude"):
+            hit("world:same objects first used on another CVR list")
+        rp = w.get("repr", {})
+        hit(f"marks:{w.get('marks')}")
+        hit(f"repr:candidates {rp.get('cand')} / winner {rp.get('win')} / loser {rp.get('los')}")
+        hit(f"repr:cards {rp.get('cards')}")
+        hit(f"repr:n_winners {rp.get('nw')}")
+        hit(f"repr:share {rp.get('share')}")
+        hit("repr:positional calls" if rp.get("positional") else "repr:keyword calls")
         hit(f"cards:{'1' if len(w['cards']) == 1 else '2-8' if len(w['cards']) <= 8 else '9-24' if len(w['cards']) <= 24 else '25-40'}")
+
+    # ---- random and boundary worlds; a quarter of them in pairs that are built completely and then evaluated
+    #      alternately (half of the pairs on the very same CVR objects)
+    k = 0
+    while k < n_worlds:
+        w = gen_world(rng)
+        w["setters_first"], w["prelude"] = rng.random() < 0.3, rng.random() < 0.25
+        if rng.random() < 0.25:
+            share = rng.random() < 0.5
+            w2 = variant_world(rng, w) if share else gen_world(rng)
+            r1, r2 = run_pair(w, w2, rng, share)
+            absorb(w, r1)
+            absorb(w2, r2)
+            hit("pair:evaluated alternately" + (", shared CVR objects" if share else ""))
+            k += 2
+        else:
+            absorb(w, run_world(w, rng))
+            k += 1
     # ---- awkward shares on short lists (to Coq as well), long lists and tiny margins (oracle only: the exact
     #      Fraction oracle does not depend on the length)
     def sized(w, to_coq, tag):
         nonlocal a_cases, t_cases, m_cases
+        if len(w["cards"]) <= 3000:
+            w["setters_first"], w["prelude"] = rng.random() < 0.3, rng.random() < 0.25
         ac, tc, mc, facts = run_world(w, rng)
         for c, f in zip(ac, facts):
             res.oracle_runs += oracle_case(c, f, res.oracle_violations)
